@@ -198,6 +198,10 @@ func (s *ManagedServer) enqueueSave() {
 	}
 }
 
+// updateProdULM applies f to the user lookup maps of the live credential stores.
+//
+// It must be called with s.mu held, so that the live stores see changes
+// in the same order as the cached maps.
 func (s *ManagedServer) updateProdULM(f func(ss2022.UserLookupMap)) {
 	if s.tcp != nil {
 		s.tcp.UpdateUserLookupMap(f)
@@ -236,11 +240,11 @@ func (s *ManagedServer) AddCredential(username string, uPSK []byte) error {
 	}
 	s.cachedCredMap[username] = uc
 	s.cachedUserLookupMap[uc.uPSKHash] = c
-	s.mu.Unlock()
-	s.enqueueSave()
 	s.updateProdULM(func(ulm ss2022.UserLookupMap) {
 		ulm[uc.uPSKHash] = c
 	})
+	s.mu.Unlock()
+	s.enqueueSave()
 	return nil
 }
 
@@ -274,12 +278,12 @@ func (s *ManagedServer) UpdateCredential(username string, uPSK []byte) error {
 	uc.uPSKHash = uPSKHash
 	delete(s.cachedUserLookupMap, oldUPSKHash)
 	s.cachedUserLookupMap[uc.uPSKHash] = c
-	s.mu.Unlock()
-	s.enqueueSave()
 	s.updateProdULM(func(ulm ss2022.UserLookupMap) {
 		delete(ulm, oldUPSKHash)
 		ulm[uc.uPSKHash] = c
 	})
+	s.mu.Unlock()
+	s.enqueueSave()
 	return nil
 }
 
@@ -293,11 +297,11 @@ func (s *ManagedServer) DeleteCredential(username string) error {
 	}
 	delete(s.cachedCredMap, username)
 	delete(s.cachedUserLookupMap, uc.uPSKHash)
-	s.mu.Unlock()
-	s.enqueueSave()
 	s.updateProdULM(func(ulm ss2022.UserLookupMap) {
 		delete(ulm, uc.uPSKHash)
 	})
+	s.mu.Unlock()
+	s.enqueueSave()
 	return nil
 }
 
@@ -353,14 +357,13 @@ func (s *ManagedServer) LoadFromFile() error {
 	s.cachedContent = strings.Clone(content)
 	s.cachedUserLookupMap = userLookupMap
 	s.cachedCredMap = credMap
-	s.mu.Unlock()
-
 	if s.tcp != nil {
-		s.tcp.ReplaceUserLookupMap(maps.Clone(s.cachedUserLookupMap))
+		s.tcp.ReplaceUserLookupMap(maps.Clone(userLookupMap))
 	}
 	if s.udp != nil {
-		s.udp.ReplaceUserLookupMap(maps.Clone(s.cachedUserLookupMap))
+		s.udp.ReplaceUserLookupMap(maps.Clone(userLookupMap))
 	}
+	s.mu.Unlock()
 
 	return nil
 }
